@@ -523,6 +523,9 @@ def run_impl(case):
         return _run_glue(i)
     if op == "cmd":
         return _run_cmd(i)
+    if op == "seg_small":       # round 5c: segments with no / one bin (harness/props/_c17small5c.py)
+        from ._c17small5c import run_small
+        return run_small(i)
     if op == "bintest_noseg":   # round 5: do_bintest without segments (harness/props/_c17ext5.py)
         from ._c17ext5 import run_noseg
         return run_noseg(i)
@@ -750,7 +753,7 @@ def to_line(case, impl):
         if not err:
             line["impl"] = impl
         return line
-    if case["op"] == "bh":
+    if case["op"] in ("bh", "seg_small"):
         if not err:
             line["impl"] = impl
         return line
@@ -811,6 +814,9 @@ def judge(case, impl, resp):
     if "error" in resp:
         return [], ["model error: " + resp["error"]], None
     op = case["op"]
+    if op == "seg_small":
+        from ._c17small5c import judge_small
+        return judge_small(case, impl, resp)
     if op in ("glue", "cmd"):
         return _judge_glue(case, impl, resp)
     if op == "bh":
@@ -887,6 +893,8 @@ def classify_smoothed_ci_range(case, impl, resp):
 
 def nontrivial(case, impl, resp):
     op = case["op"]
+    if op == "seg_small":
+        return True
     if op == "glue":
         return bool(case["in"]["old_cols"]) and bool(case["in"]["loc"] or case["in"]["spread"] or case["in"]["interval"])
     if op == "cmd":
@@ -1391,12 +1399,22 @@ def gen_cases(rng, tier):
     # round 5: bintest without segments (own generator, seeded last)
     from ._c17ext5 import gen_noseg
     cases += gen_noseg(grng, tier)
+    # round 5c: segments without bins / with one bin (own generator, seeded last)
+    from ._c17small5c import gen_small
+    cases += gen_small(grng, tier)
+    only = os.environ.get("VERIF_C17_ONLY")   # restricted run for mutation tests: only the cases of one op
+    if only:
+        cases = [c for c in cases if c["op"] == only]
     return cases
 
 
 def shrink(case):
     import copy
     i = case["in"]
+    if case["op"] == "seg_small":
+        from ._c17small5c import shrink_small
+        yield from shrink_small(case)
+        return
     if case["op"] in ("glue", "cmd"):
         for key in ("old_cols", "loc", "spread", "interval"):
             for k in range(len(i.get(key, []))):
